@@ -1355,7 +1355,14 @@ def run(ctx):
     rng = ctx.rng
     logging.disable(logging.CRITICAL)
     t0 = time.time()
+    # translator tie: regenerate Gen/SheetGen.v from the source tree before the proofs are re-checked
+    from . import pygen_c20
+    gen_ok, gen_msg = pygen_c20.regenerate()
     ctx.proof = common.check_props('C20')
+    if not gen_ok:
+        ctx.proof['ok'] = False
+        ctx.proof['log'] = 'harness/pygen_c20.py: ' + gen_msg + '\n' + ctx.proof.get('log', '')
+        ctx.proof['failed_file'] = 'theories/Gen/SheetGen.v (translation of the source of convert.py / service_sheet.py failed)'
     TM.add('proofs', t0)
     equipment()
     ctx.rule = ('random workbooks: 2-5 (thorough: up to 10) junction sites joined by chains of 0-3 line sites, types '
@@ -1662,6 +1669,9 @@ def run(ctx):
         'route-name correction (corresp_names, corresp_next_node, find_node_sugestion, correct_xls_route_list) is modelled '
         'in full on the network before auto-design; on the designed network (auto-design amplifier names, split fibres) '
         'the result is judged by the oracle only',
+        'translator tie: harness/pygen_c20.py (fail-closed template matching + translation of the field mappings, '
+        'defaults, rule conditions and unit conversions of convert.py / service_sheet.py into Gen/SheetGen.v, proved equal '
+        'to the model in Proofs/SheetGen.v)',
         'dBm -> W and pmd_coef use transcendental functions: compared against math.pow / as squares',
     ]
     return common.finish(ctx, MATCHERS)
